@@ -40,6 +40,7 @@ func runC06(ctx *core.Ctx) {
 	c06Expr(ctx)
 	c06Func(ctx)
 	c06Hist(ctx)
+	c06Order(ctx)
 }
 
 // ---- running SQL against the real engine -----------------------------------------------------------
